@@ -138,6 +138,18 @@ Proof. intros size. exact (vec_consumes dec_varint 1 size consumes_varint). Qed.
 Theorem C04_vec_hash_bounded : forall size s l r, dec_vec size dec_hash s = (Ok l, r) -> (length r + 1 + 32 * length l <= length s)%nat.
 Proof. intros size. exact (vec_consumes dec_hash 32 size consumes_hash). Qed.
 
+Theorem C04_vec_bulletproof_bounded : forall size s l r, dec_vec size dec_bulletproof s = (Ok l, r) -> (length r + 1 + 290 * length l <= length s)%nat.
+Proof. intros size. exact (vec_consumes dec_bulletproof 290 size consumes_bulletproof). Qed.
+
+Theorem C04_vec_bpplus_bounded : forall size s l r, dec_vec size dec_bpplus s = (Ok l, r) -> (length r + 1 + 194 * length l <= length s)%nat.
+Proof. intros size. exact (vec_consumes dec_bpplus 194 size consumes_bpplus). Qed.
+
+Theorem C04_rangesigs_bounded : forall size n s l r, dec_sized size n dec_rangesig s = (Ok l, r) -> (length r + (4128 + 2048) * N.to_nat n <= length s)%nat.
+Proof. intros size n. exact (sized_consumes dec_rangesig (4128 + 2048) size n consumes_rangesig). Qed.
+
+Theorem C04_header_consumes : forall s a r, dec_header s = (Ok a, r) -> (length r + 39 <= length s)%nat.
+Proof. exact consumes_header. Qed.
+
 Theorem C04_bytes_vec_bounded : forall s l r, dec_bytes_vec s = (Ok l, r) -> (length r + 1 + 1 * length l <= length s)%nat.
 Proof. exact (vec_consumes read_u8 1 1 consumes_read_u8). Qed.
 
@@ -162,6 +174,18 @@ Proof. intros A d k size. exact (alloc_kept_linear d k size). Qed.
 
 Theorem C04_alloc_kept_txin : forall sz s l r, dec_vec (sz_txin sz) dec_txin s = (Ok l, r) -> 2 * (sz_txin sz * lenN l) <= sz_txin sz * (lenN s - lenN r).
 Proof. intros sz s l r H. exact (proj2 (alloc_kept_linear dec_txin 2 (sz_txin sz) consumes_txin s l r H)). Qed.
+
+Theorem C04_alloc_kept_txout : forall sz s l r, dec_vec (sz_txout sz) dec_txout s = (Ok l, r) -> 34 * (sz_txout sz * lenN l) <= sz_txout sz * (lenN s - lenN r).
+Proof. intros sz s l r H. exact (proj2 (alloc_kept_linear dec_txout 34 (sz_txout sz) consumes_txout s l r H)). Qed.
+
+Theorem C04_alloc_kept_bulletproof : forall sz s l r, dec_vec (sz_bulletproof sz) dec_bulletproof s = (Ok l, r) -> 290 * (sz_bulletproof sz * lenN l) <= sz_bulletproof sz * (lenN s - lenN r).
+Proof. intros sz s l r H. exact (proj2 (alloc_kept_linear dec_bulletproof 290 (sz_bulletproof sz) consumes_bulletproof s l r H)). Qed.
+
+Theorem C04_alloc_kept_bpplus : forall sz s l r, dec_vec (sz_bpplus sz) dec_bpplus s = (Ok l, r) -> 194 * (sz_bpplus sz * lenN l) <= sz_bpplus sz * (lenN s - lenN r).
+Proof. intros sz s l r H. exact (proj2 (alloc_kept_linear dec_bpplus 194 (sz_bpplus sz) consumes_bpplus s l r H)). Qed.
+
+Theorem C04_alloc_kept_varint_hash : (forall s l r, dec_vec 8 dec_varint s = (Ok l, r) -> 1 * (8 * lenN l) <= 8 * (lenN s - lenN r)) /\ (forall s l r, dec_vec 32 dec_hash s = (Ok l, r) -> 32 * (32 * lenN l) <= 32 * (lenN s - lenN r)) /\ (forall s l r, dec_bytes_vec s = (Ok l, r) -> 1 * (1 * lenN l) <= 1 * (lenN s - lenN r)).
+Proof. split; [intros s l r H; exact (proj2 (alloc_kept_linear dec_varint 1 8 consumes_varint s l r H))|]. split; [intros s l r H; exact (proj2 (alloc_kept_linear dec_hash 32 32 consumes_hash s l r H))|intros s l r H; exact (proj2 (alloc_kept_linear read_u8 1 1 consumes_read_u8 s l r H))]. Qed.
 
 (* ---- (d) operations on parsed objects ---- *)
 Theorem C04_block_hashes_bounded : forall sz s b r, dec_block sz s = (Ok b, r) -> lenN (tx_hashes b) <= 2 ^ 20.
@@ -245,6 +269,10 @@ Check C04_vec_txin_bounded : forall size s l r, dec_vec size dec_txin s = (Ok l,
 Check C04_vec_txout_bounded : forall size s l r, dec_vec size dec_txout s = (Ok l, r) -> (length r + 1 + 34 * length l <= length s)%nat.
 Check C04_vec_varint_bounded : forall size s l r, dec_vec size dec_varint s = (Ok l, r) -> (length r + 1 + 1 * length l <= length s)%nat.
 Check C04_vec_hash_bounded : forall size s l r, dec_vec size dec_hash s = (Ok l, r) -> (length r + 1 + 32 * length l <= length s)%nat.
+Check C04_vec_bulletproof_bounded : forall size s l r, dec_vec size dec_bulletproof s = (Ok l, r) -> (length r + 1 + 290 * length l <= length s)%nat.
+Check C04_vec_bpplus_bounded : forall size s l r, dec_vec size dec_bpplus s = (Ok l, r) -> (length r + 1 + 194 * length l <= length s)%nat.
+Check C04_rangesigs_bounded : forall size n s l r, dec_sized size n dec_rangesig s = (Ok l, r) -> (length r + (4128 + 2048) * N.to_nat n <= length s)%nat.
+Check C04_header_consumes : forall s a r, dec_header s = (Ok a, r) -> (length r + 39 <= length s)%nat.
 Check C04_bytes_vec_bounded : forall s l r, dec_bytes_vec s = (Ok l, r) -> (length r + 1 + 1 * length l <= length s)%nat.
 Check C04_sized_bounded : forall A (d : dec A) k size n, (forall s a r, d s = (Ok a, r) -> (length r + k <= length s)%nat) -> forall s l r, dec_sized size n d s = (Ok l, r) -> (length r + k * N.to_nat n <= length s)%nat.
 Check C04_cap_bounds_count : forall size n, over_cap size n = false -> size * n <= 32 * 1024 * 1024.
@@ -253,6 +281,10 @@ Check C04_alloc_each : forall size len q, alloc_request size len = Some q -> q <
 Check C04_alloc_each_vec : forall A size (d : dec A) s q, vec_request size d s = Some q -> q <= 32 * 1024 * 1024.
 Check C04_alloc_kept_linear : forall A (d : dec A) k size, (forall s a r, d s = (Ok a, r) -> (length r + k <= length s)%nat) -> forall s l r, dec_vec size d s = (Ok l, r) -> vec_request size d s = Some (size * lenN l) /\ N.of_nat k * (size * lenN l) <= size * (lenN s - lenN r).
 Check C04_alloc_kept_txin : forall sz s l r, dec_vec (sz_txin sz) dec_txin s = (Ok l, r) -> 2 * (sz_txin sz * lenN l) <= sz_txin sz * (lenN s - lenN r).
+Check C04_alloc_kept_txout : forall sz s l r, dec_vec (sz_txout sz) dec_txout s = (Ok l, r) -> 34 * (sz_txout sz * lenN l) <= sz_txout sz * (lenN s - lenN r).
+Check C04_alloc_kept_bulletproof : forall sz s l r, dec_vec (sz_bulletproof sz) dec_bulletproof s = (Ok l, r) -> 290 * (sz_bulletproof sz * lenN l) <= sz_bulletproof sz * (lenN s - lenN r).
+Check C04_alloc_kept_bpplus : forall sz s l r, dec_vec (sz_bpplus sz) dec_bpplus s = (Ok l, r) -> 194 * (sz_bpplus sz * lenN l) <= sz_bpplus sz * (lenN s - lenN r).
+Check C04_alloc_kept_varint_hash : (forall s l r, dec_vec 8 dec_varint s = (Ok l, r) -> 1 * (8 * lenN l) <= 8 * (lenN s - lenN r)) /\ (forall s l r, dec_vec 32 dec_hash s = (Ok l, r) -> 32 * (32 * lenN l) <= 32 * (lenN s - lenN r)) /\ (forall s l r, dec_bytes_vec s = (Ok l, r) -> 1 * (1 * lenN l) <= 1 * (lenN s - lenN r)).
 Check C04_block_hashes_bounded : forall sz s b r, dec_block sz s = (Ok b, r) -> lenN (tx_hashes b) <= 2 ^ 20.
 Check C04_block_tree_assert_unreachable : forall sz s b r, dec_block sz s = (Ok b, r) -> lenN (tx_hashes b) + 1 <= 2 ^ 28.
 Check C04_block_root_total : forall (H : bytes -> bytes) sz s b r mh, dec_block sz s = (Ok b, r) -> tx_root H mh (tx_hashes b) = Ok (root_spec H (mh :: tx_hashes b)).
@@ -304,6 +336,10 @@ Print Assumptions C04_vec_txin_bounded.
 Print Assumptions C04_vec_txout_bounded.
 Print Assumptions C04_vec_varint_bounded.
 Print Assumptions C04_vec_hash_bounded.
+Print Assumptions C04_vec_bulletproof_bounded.
+Print Assumptions C04_vec_bpplus_bounded.
+Print Assumptions C04_rangesigs_bounded.
+Print Assumptions C04_header_consumes.
 Print Assumptions C04_bytes_vec_bounded.
 Print Assumptions C04_sized_bounded.
 Print Assumptions C04_cap_bounds_count.
@@ -312,6 +348,10 @@ Print Assumptions C04_alloc_each.
 Print Assumptions C04_alloc_each_vec.
 Print Assumptions C04_alloc_kept_linear.
 Print Assumptions C04_alloc_kept_txin.
+Print Assumptions C04_alloc_kept_txout.
+Print Assumptions C04_alloc_kept_bulletproof.
+Print Assumptions C04_alloc_kept_bpplus.
+Print Assumptions C04_alloc_kept_varint_hash.
 Print Assumptions C04_block_hashes_bounded.
 Print Assumptions C04_block_tree_assert_unreachable.
 Print Assumptions C04_block_root_total.
